@@ -14,6 +14,7 @@ import warnings
 import numpy as np
 
 from harness.common import rat, rat_list, parse_rat_list, Fraction, MachineryError
+from harness.props import c15_atmos
 
 TOL = 1e-9
 WHERE_CODE = {'left': 1, 'right': 2, 'top': 3, 'bottom': 4}
@@ -1216,6 +1217,21 @@ DIRECTED = [
 # ---------------------------------------------------------------------------------------------
 
 def handle(ctx, case, batch):
+    if case['kind'] == 'atmos':
+        bad, obs, counts = c15_atmos.judge_atmos(case)
+        kinds = ''.join(l['kind'][0] for l in case['layers'])
+        ctx.count('atmos:layers %s' % ('all finite' if 'i' not in kinds else 'all infinite' if 'f' not in kinds else 'mixed'))
+        ctx.count('atmos:%d layers' % len(kinds))
+        for k, n in counts.items():
+            ctx.count(k, n)
+        for key, what in bad:
+            ctx.violation(key, what, case)
+        nread = sum(1 for o in obs if o['op'][0] in ('read', 'forward'))
+        ctx.case(case if len(ctx.samples) < 7 and ctx.evaluations % 5 == 0 else None,
+                 nontrivial_key=('atmos', kinds, case['nx'], case['ny'], len(case['ops']), bool(case['scint'])) if nread else None)
+        lines, want = c15_atmos.atmos_lines(case, obs)
+        batch.append((case, obs, lines, want))
+        return
     if case['kind'] == 'noise':
         bad, obs, counts = judge_noise(case)
         sig = (case['cls'], case['nx'] == case['ny'], case['shift'][0] != 0, case['shift'][1] != 0, case['nx'], case['ny'])
@@ -1317,6 +1333,9 @@ def run(ctx):
             cases.append(gen_layer_case(ctx.rng, 'infinite', big and i % 3 == 0))
         else:
             cases.append(gen_noise_case(ctx.rng, big and i % 3 == 0))
+    cases += [copy.deepcopy(c) for c in c15_atmos.DIRECTED]
+    for i in range(ctx.scale(30, 700)):
+        cases.append(c15_atmos.gen_atmos_case(ctx.rng, big and i % 3 == 0))
     batch = []
     for case in cases:
         handle(ctx, case, batch)
@@ -1328,7 +1347,9 @@ def run(ctx):
     out = ctx.model(all_lines)
     for (case, obs, lines, idx), (b, m) in zip(batch, spans):
         o = out[b:b + m]
-        if case['kind'] == 'noise':
+        if case['kind'] == 'atmos':
+            c15_atmos.compare_atmos(ctx, case, obs, idx, o)
+        elif case['kind'] == 'noise':
             compare_noise(ctx, case, obs, o)
         else:
             idx, nl, want = idx
@@ -1337,7 +1358,9 @@ def run(ctx):
 
 
 def replay(ctx, case):
-    if case['kind'] == 'noise':
+    if case['kind'] == 'atmos':
+        bad, _, _ = c15_atmos.judge_atmos(case)
+    elif case['kind'] == 'noise':
         bad, _, _ = judge_noise(case)
     else:
         bad, _, _ = judge(case)
